@@ -412,9 +412,16 @@ func newChunk(id string, seq int32) proto.Message {
 	return m
 }
 
+// chunkID reads the script id from the request: Chunk.id, or Upload.name on
+// the HttpBody upload route.
 func chunkID(m proto.Message) string {
 	r := m.ProtoReflect()
-	return r.Get(r.Descriptor().Fields().ByName("id")).String()
+	for _, f := range []protoreflect.Name{"id", "name"} {
+		if fd := r.Descriptor().Fields().ByName(f); fd != nil {
+			return r.Get(fd).String()
+		}
+	}
+	return ""
 }
 
 // ----------------------------------------------------------------- handler
@@ -495,6 +502,9 @@ func (e *Env) unary(ctx context.Context, md protoreflect.MethodDescriptor, in pr
 		return nil, statusOf(sc).Err()
 	}
 	e.record(id, func(r *Rec) { r.Sent = 1 })
+	if md.Output().FullName() != chunkDesc().FullName() {
+		return vschema.NewMsg(md.Output()), nil
+	}
 	return newChunk(id, 1), nil
 }
 
@@ -582,6 +592,14 @@ type Case struct {
 	// Hop are hop-by-hop (connection-specific) request headers of an HTTP/1
 	// front, sent in addition to ReqHdr: they must not become metadata.
 	Hop [][2]string `json:"hop,omitempty"`
+	// HTTP-shape dimension (Kind "C05http"): Route is "get" (GET binding, no
+	// body: the handler is reached whatever the Content-Type), "upload"
+	// (HttpBody route, any media type), "post" (JSON body under the given
+	// Content-Type), or a request no route matches: "404", "405", "deep-path",
+	// "no-method". ReqCT / Accept are the header values ("-" = header absent).
+	Route  string `json:"route,omitempty"`
+	ReqCT  string `json:"req_ct,omitempty"`
+	Accept string `json:"accept,omitempty"`
 	// Opt selects mux options: "" defaults | "send64" | "send256"
 	// (MaxSendMessageSizeOption) | "recv64" (MaxReceiveMessageSizeOption).
 	Opt string `json:"opt,omitempty"`
@@ -711,9 +729,17 @@ func (e *Env) run(c *Case) (*Obs, Rec) {
 	var o *Obs
 	switch c.Proto {
 	case "http", "twirp":
-		o = e.doHTTPInproc(c, id)
+		if c.Route != "" {
+			o = e.doHTTPShape(c, id, false)
+		} else {
+			o = e.doHTTPInproc(c, id)
+		}
 	case "http-sock", "twirp-sock":
-		o = e.doHTTPSock(c, id)
+		if c.Route != "" {
+			o = e.doHTTPShape(c, id, true)
+		} else {
+			o = e.doHTTPSock(c, id)
+		}
 	case "grpc":
 		o = e.doGRPC(c, id)
 	case "grpc-raw":
@@ -797,6 +823,73 @@ func (e *Env) doHTTPInproc(c *Case, id string) *Obs {
 
 func (e *Env) sockDo(cl *http.Client, path string, h http.Header, body []byte) *Obs {
 	return e.sockDoBody(cl, path, h, bytes.NewReader(body), sockTimeout)
+}
+
+// doHTTPShape sends the request of the HTTP-shape dimension: method, path,
+// Content-Type and Accept as the case says.
+func (e *Env) doHTTPShape(c *Case, id string, sock bool) *Obs {
+	method, path := "POST", "/v1/echo"
+	var body []byte
+	switch c.Route {
+	case "get":
+		method, path = "GET", "/v1/echo/"+id
+		if c.Method == "SS" {
+			path = "/v1/ss/" + id
+		}
+	case "upload":
+		path, body = "/v1/uploadu/"+id, []byte("\x89PNG\r\n\x1a\n not really")
+	case "post":
+		body, _ = protojson.Marshal(newChunk(id, 0))
+	case "404":
+		method, path = "GET", "/v1/no-such-route/"+id
+	case "405":
+		method, path = "DELETE", "/v1/echo"
+	case "deep-path":
+		method, path = "GET", "/v1/echo/"+id+"/a/b/c"
+	case "no-method":
+		path, body = "/"+e.Std.Pkg+".Std/NoSuchMethod", []byte("{}")
+	}
+	h := http.Header{}
+	if c.ReqCT != "-" {
+		h["Content-Type"] = []string{c.ReqCT}
+	}
+	if c.Accept != "-" {
+		h["Accept"] = []string{c.Accept}
+	}
+	if !sock {
+		var req *http.Request
+		if body == nil {
+			req = wire.BodyRequest(method, path, "", h, nil)
+		} else {
+			req = wire.BodyRequest(method, path, "", h, body)
+		}
+		return fromResp(wire.Serve(e.Mux, req))
+	}
+	ctx, cancel := context.WithTimeout(context.Background(), sockTimeout)
+	defer cancel()
+	var rd io.Reader
+	if body != nil {
+		rd = bytes.NewReader(body)
+	}
+	req, err := http.NewRequestWithContext(ctx, method, e.Srv.URL+path, rd)
+	if err != nil {
+		return &Obs{Err: "request: " + err.Error()}
+	}
+	req.Header = h
+	resp, err := e.H1.Do(req)
+	if err != nil {
+		return &Obs{Err: "transport: " + err.Error(), Timeout: isTimeout(err)}
+	}
+	defer resp.Body.Close()
+	b, rerr := io.ReadAll(resp.Body)
+	o := &Obs{HTTP: resp.StatusCode, Hdr: resp.Header, Trl: resp.Trailer, Body: b}
+	if rerr != nil {
+		o.Err = "reading body: " + rerr.Error()
+		o.Timeout = isTimeout(rerr)
+	}
+	o.MDHdr = lowerHeader(resp.Header)
+	o.MDTrl = lowerHeader(resp.Trailer)
+	return o
 }
 
 // holdTimeout is the watchdog of calls whose client keeps its send side open
